@@ -159,7 +159,9 @@ struct Ctx {
     std::lock_guard<std::mutex> l(mu);
     long c = ++violcount[key];
     if (c <= 3 && viol.size() < 200) viol.push_back(Violation{key, detail, cur_desc, cur});
-    if (a.only >= 0 || a.verbose) fprintf(stderr, "VIOLATION-DETAIL key=%s case=%ld: %s\n", key.c_str(), cur, detail.c_str());
+    // the first occurrences also go to stderr at once: if a sanitizer aborts this process later, the result file is never
+    // written and the driver recovers them from there
+    if (a.only >= 0 || a.verbose || c <= 3) fprintf(stderr, "VIOLATION-DETAIL key=%s case=%ld: %s\n", key.c_str(), cur, detail.c_str());
   }
   void write() {
     if (a.out.empty()) {
